@@ -12,8 +12,8 @@ use crate::refmodel::{graph, tape_shadow};
 use crate::util::{Rng, Stats, Tier, fbits, guarded};
 use crate::{Mode, Prop};
 use fidget_core::context::Node;
-use fidget_core::eval::Tape;
-use fidget_core::types::Interval;
+use fidget_core::eval::{BulkEvaluator, Tape};
+use fidget_core::types::{Grad, Interval};
 use fidget_core::vm::{Choice, VmFunction};
 use fidget_jit::JitFunction;
 use serde_json::{Value, json};
@@ -329,6 +329,78 @@ fn check_backend<F: Backend>(
     Ok(traces)
 }
 
+/// "Output arrays have exactly the requested number of outputs and samples":
+/// one long-lived float-slice and one grad-slice evaluator per backend are
+/// handed functions with different numbers of outputs (all roots, a prefix,
+/// a single root) on different numbers of samples; the shape of what comes
+/// back must be (outputs of this tape) x (samples of this call) every time
+/// (the values themselves are C01/C02/C10's business).
+fn check_bulk_shapes<F: Backend>(b: &prog::Built, roots: &[Node], n_vars: usize, rng: &mut Rng, st: &mut Stats) -> Result<(), Viol> {
+    let name = F::NAME;
+    let mut fe = F::new_float_slice_eval();
+    let mut ge = F::new_grad_slice_eval();
+    let mut subsets: Vec<Vec<Node>> = vec![roots.to_vec()];
+    if roots.len() > 1 {
+        subsets.push(roots[..1 + rng.below(roots.len() - 1)].to_vec());
+        subsets.push(vec![roots[rng.below(roots.len())]]);
+    }
+    subsets.push(roots.to_vec());
+    rng.shuffle(&mut subsets[1..]);
+    for (step, rs) in subsets.iter().enumerate() {
+        let f = F::new(&b.ctx, rs).unwrap();
+        let Some(slot_of) = slot_map(f.vars(), &b.vars) else {
+            // a sub-function may use fewer variables than the program
+            let n = *rng.pick(&[1usize, 5, 8, 9, 24]);
+            let cols: Vec<Vec<f32>> = (0..f.vars().len()).map(|_| (0..n).map(|_| rng.uniform(-2.0, 2.0) as f32).collect()).collect();
+            let ft = f.float_slice_tape(Default::default());
+            let out = fe.eval(&ft, &cols).map_err(|e| Viol { sig: format!("{name}:bulk_error"), msg: e.to_string(), detail: json!(null) })?;
+            if out.len() != rs.len() || (0..out.len()).any(|i| out[i].len() != n) {
+                return Err(Viol {
+                    sig: format!("{name}:float_slice_shape"),
+                    msg: format!("{name} float-slice evaluator (reused, step {step}) returned {} arrays for a tape with {} outputs on {n} samples", out.len(), rs.len()),
+                    detail: json!({"step": step, "outputs": rs.len(), "samples": n}),
+                });
+            }
+            st.inc("bulk_shape_checks");
+            continue;
+        };
+        let _ = n_vars;
+        let mut n = *rng.pick(&[1usize, 3, 8, 9, 17, 40]);
+        if slot_of.is_empty() {
+            // a function of no variable is given no column: the number of
+            // samples of such a call is 0 by construction
+            n = 0;
+            st.inc("bulk_shape_checks_constant_function");
+        }
+        let pts: Vec<Vec<f32>> = (0..n).map(|_| prog::gen_inputs(rng, slot_of.len().max(n_vars), Inputs::Tame)).collect();
+        let cols: Vec<Vec<f32>> = slot_of.iter().map(|&s| pts.iter().map(|q| q[s]).collect()).collect();
+        let ft = f.float_slice_tape(Default::default());
+        let out = fe.eval(&ft, &cols).map_err(|e| Viol { sig: format!("{name}:bulk_error"), msg: e.to_string(), detail: json!(null) })?;
+        let lens: Vec<usize> = (0..out.len()).map(|i| out[i].len()).collect();
+        if out.len() != rs.len() || lens.iter().any(|l| *l != n) || out.len() != tape_output_count(&ft) {
+            return Err(Viol {
+                sig: format!("{name}:float_slice_shape"),
+                msg: format!("{name} float-slice evaluator (reused, step {step}) returned {} arrays of lengths {lens:?} for a tape with {} outputs on {n} samples", out.len(), rs.len()),
+                detail: json!({"step": step, "outputs": rs.len(), "samples": n}),
+            });
+        }
+        let gcols: Vec<Vec<Grad>> = cols.iter().map(|c| c.iter().map(|v| Grad::from(*v)).collect()).collect();
+        let gt = f.grad_slice_tape(Default::default());
+        let gout = ge.eval(&gt, &gcols).map_err(|e| Viol { sig: format!("{name}:bulk_error"), msg: e.to_string(), detail: json!(null) })?;
+        let glens: Vec<usize> = (0..gout.len()).map(|i| gout[i].len()).collect();
+        if gout.len() != rs.len() || glens.iter().any(|l| *l != n) {
+            return Err(Viol {
+                sig: format!("{name}:grad_slice_shape"),
+                msg: format!("{name} grad-slice evaluator (reused, step {step}) returned {} arrays of lengths {glens:?} for a tape with {} outputs on {n} samples", gout.len(), rs.len()),
+                detail: json!({"step": step, "outputs": rs.len(), "samples": n}),
+            });
+        }
+        st.inc("bulk_shape_checks");
+        st.add("bulk_shape_samples", n as u64);
+    }
+    Ok(())
+}
+
 impl Prop for C20 {
     fn id(&self) -> &'static str {
         "C20"
@@ -391,6 +463,12 @@ impl Prop for C20 {
             Ok(t) => t,
             Err(v) => return report(st, v),
         };
+        if let Err(v) = check_bulk_shapes::<VmFunction>(&b, &roots, p.n_vars, rng, st) {
+            return report(st, v);
+        }
+        if let Err(v) = check_bulk_shapes::<JitFunction>(&b, &roots, p.n_vars, rng, st) {
+            return report(st, v);
+        }
         // interpreter and JIT produce the same trace for the same point
         for (i, ((tv, _), (tj, clean))) in vm.iter().zip(jit.iter()).enumerate() {
             let all_clean = clean.iter().all(|c| *c);
